@@ -1,7 +1,9 @@
 package props
 
 import (
+	"errors"
 	"fmt"
+	"io"
 	"strings"
 
 	"github.com/crillab/gophersat/explain"
@@ -29,6 +31,10 @@ func c08Gen(r *gen.Rng, tier string, idx int) interface{} {
 	c := &C08Case{MutSeed: r.U64(), Comment: r.Chance(1, 5)}
 	c.Kind = []string{"genuine", "genuine", "random", "random", "droplit", "fliplit", "dropline", "empty", "shuffled"}[r.Intn(9)]
 	c.Entry = []string{"reader", "chan"}[r.Intn(2)]
+	if r.Chance(1, 150) { // a certificate the reader cannot take in entirely: a line of more than 64 KiB, or a reader that fails
+		c.Kind = []string{"longline", "readerfault"}[r.Intn(2)]
+		c.Entry = "reader"
+	}
 	switch r.Intn(3) {
 	case 0:
 		c.CNF, c.N = gen.RandomMUSInput(r, 9, 30)
@@ -176,6 +182,10 @@ func c08Run(ci interface{}, rec *Rec) {
 	n := c.N
 	refP := ref.CNFToProblem(c.CNF, n)
 	sat := refP.Sat(n)
+	if c.Kind == "longline" || c.Kind == "readerfault" {
+		c08Unreadable(c, rec, refP, n)
+		return
+	}
 	lines, ok := c08Certificate(c, rec)
 	if !ok {
 		return
@@ -300,4 +310,70 @@ func init() {
 			"thorough": {"accepted_2plus_lines": 25000, "rejected_2plus_lines": 25000, "subsets": 250000},
 		},
 	})
+}
+
+// faultyReader delivers its text, then fails with a non-EOF error.
+type faultyReader struct {
+	text string
+	pos  int
+}
+
+func (f *faultyReader) Read(p []byte) (int, error) {
+	if f.pos >= len(f.text) {
+		return 0, errors.New("injected read error")
+	}
+	n := copy(p, f.text[f.pos:])
+	f.pos += n
+	return n, nil
+}
+
+var _ io.Reader = (*faultyReader)(nil)
+
+// c08Unreadable offers a certificate whose bad line the checker cannot read completely (a line above the
+// scanner's 64 KiB limit, or a reader failing before it): whatever it does, it must not call it valid.
+func c08Unreadable(c *C08Case, rec *Rec, refP *ref.Problem, n int) {
+	scen := "Unsat(reader)/" + c.Kind
+	r := gen.New(c.MutSeed)
+	var bad []int
+	for try := 0; try < 30 && bad == nil; try++ {
+		cl := r.DistinctLits(n, r.Range(1, min(2, n)))
+		if !refP.Implies(n, ref.Cl(cl...)) {
+			bad = cl
+		}
+	}
+	if bad == nil {
+		rec.Count("unreadable_skipped_no_non_consequence", 1)
+		return
+	}
+	pb := explainParse(c.CNF, n, rec, scen)
+	if pb == nil {
+		return
+	}
+	var reader io.Reader
+	if c.Kind == "longline" {
+		var sb strings.Builder
+		for sb.Len() < 70_000 { // the same non-consequence clause, its literals written again and again
+			for _, l := range bad {
+				fmt.Fprintf(&sb, "%d ", l)
+			}
+		}
+		sb.WriteString("0\n0\n")
+		reader = strings.NewReader(sb.String())
+	} else {
+		// a first, harmless line (a tautology), then the reader fails: the bad line and the empty clause are never seen
+		reader = &faultyReader{text: "1 -1 0\n"}
+	}
+	var valid bool
+	var err error
+	if rec.Guard(scen, func() { valid, err = pb.Unsat(reader) }) {
+		return
+	}
+	rec.Count("unreadable_certificates", 1)
+	if valid && err == nil {
+		rec.Viol(scen, "non-consequence-accepted", "unreadable-certificate", "the certificate could not be read entirely (%s) and its unread part is not a consequence (%v), yet the checker reports it valid without error", c.Kind, bad)
+	}
+	if len(pb.Clauses) != pb.NbClauses {
+		rec.Viol(scen, "caller-mutated", "receiver", "after the failed check the problem holds %d clauses, NbClauses=%d", len(pb.Clauses), pb.NbClauses)
+	}
+	rec.Interesting(fmt.Sprint(c.CNF, c.Kind, bad))
 }
